@@ -301,12 +301,17 @@ def run(ctx):
             rng.shuffle(small)
             rng.shuffle(rest)
             scheds = small[:4800] + rest[:1200]
+        if not quick and p == "gws" and len(scheds) > 80000:
+            # thorough budget (<= ~30 min): the legacy protocol's <= 3-message family (~190k schedules) is sampled by seed;
+            # graphql-transport-ws <= 3 messages stays exhaustive
+            rng.shuffle(scheds)
+            scheds = scheds[:80000]
         ctx.log("%s: %d schedules with <= 3 client messages generated, %d + %d (broken transport) + %d (timer steps) replayed" % (
             p, exhaustive[p], len(scheds), len(bro), len(tim)))
         for i, st in enumerate(scheds + bro + tim):
             cases.append(make_case("%s-x-%06d" % (p, i), p, "tc", st))
         # the same schedules over the real frame codec, with seed-chosen wire variants of the symbols
-        conn = scheds if (p == "tws" or not quick) else rng.sample(scheds, 1500)
+        conn = scheds if p == "tws" else rng.sample(scheds, min(len(scheds), 1500 if quick else 20000))
         conn = conn + (bro[:60] if quick else bro[:2000]) + (tim[:100] if quick else tim[:2000])
         for i, st in enumerate(conn):
             cases.append(make_case("%s-c-%06d" % (p, i), p, "conn", st, rng))
@@ -332,7 +337,7 @@ def run(ctx):
         rng.shuffle(long)
         slow = [x for x in long if x[-1]["t"] == "broken"][:(40 if quick else 3000)]
         long = [x for x in long if x[-1]["t"] != "broken"]
-        long = long[:(900 if quick else 37000)] + slow
+        long = long[:(900 if quick else 20000)] + slow
         ctx.log("%s: %d distinct sampled schedules with 4-5 client messages" % (p, len(long)))
         for i, st in enumerate(long):
             cases.append(make_case("%s-s-%06d" % (p, i), p, "tc" if i % 2 == 0 else "conn", st, rng))
@@ -346,14 +351,19 @@ def run(ctx):
             if sum(1 for x in b["steps"] if x["t"] == "in") == 4:
                 uniq[lib.sha(b["steps"])] = b["steps"]
         exhaustive["tws4"] = len(uniq)
-        for i, k in enumerate(sorted(uniq)):
+        keys4 = sorted(uniq)
+        if len(keys4) > 80000:
+            rng.shuffle(keys4)
+            keys4 = sorted(keys4[:80000])
+            exhaustive["tws4_replayed_sample"] = len(keys4)
+        for i, k in enumerate(keys4):
             cases.append(make_case("tws-y-%06d" % i, "tws", "tc", uniq[k]))
         ctx.log("tws: %d schedules with exactly 4 client messages" % len(uniq))
 
     nproc = 8
     replay_and_judge(ctx, binary, cases, nproc)
     ctx.coverage["exhaustive_schedule_counts"] = exhaustive
-    ctx.coverage["exhaustive"] = not quick
+    ctx.coverage["exhaustive"] = False  # tws <= 3 messages is exhaustive in both tiers; the larger families are seed-selected samples
     ctx.assumptions += [
         "the environment is sequential: one client message / engine event / timeout at a time, the next one only after the observable "
         "completion marker of the previous one (handler reads again, executor back at its gate or returned to the pool); finer "
